@@ -83,7 +83,8 @@ def run_case(case):
         o["RoundPadding"] = True
         o["alpha0"] = gen.f32(cfggen.alpha0_for_spacing(case["sps"], dict(o, BunchCurrent=pat)))
     o["DampingTime"] = P / cfggen.derive(dict(o, BunchCurrent=pat))["fs"]
-    cls = [fam, "n%d" % n] + (["twobunch"] if len(pat) > 1 else []) + (["finesteps"] if steps >= 1000 else [])
+    cls = [fam, "n%d" % n] + (["twobunch"] if len(pat) > 1 else []) + (["finesteps"] if steps >= 1000 else []) \
+        + (["near_stability_limit"] if 2.0 / (P * steps) / (12.0 / (n - 1)) ** 2 >= 0.4 else [])
     pilot = dict(o, BunchCurrent=[I0 * x for x in pat], rotations=float(np.float32(0.5 / steps)), outstep=1)
     r = cli.run(["-c", "/dev/null", "-o", "p.h5"] + cli.optargs(pilot), wd, timeout=600)
     if r.rc != 0 or "Finished." not in r.out:
@@ -160,13 +161,21 @@ def run_case(case):
 def cases(draw, fast=True):
     n = draw(st.sampled_from([64, 64, 96] if fast else [64, 96, 128]))
     delta = 12.0 / (n - 1)
-    # per-step decrement e1 = 2/(P*steps) <= 0.3 delta^2
-    need = 2.0 / (0.3 * delta ** 2)
+    # per-step decrement e1 = 2/(P*steps) <= 0.48 delta^2
+    need = 2.0 / (0.48 * delta ** 2)       # e1/delta^2 up to 0.48: the explicit scheme is stable below 0.5
     P = draw(st.sampled_from([2.0, 3.0, 4.0, 6.0, 8.0]))
     smin = max(100, int(np.ceil(need / P)))
     steps = draw(st.integers(min(smin, 400), 400))
     if P * steps < need:
         P = float(np.ceil(need / steps))
+    if draw(st.integers(0, 5)) == 0:
+        # strong damping, close to the stability limit of the explicit scheme: diffusion number e1/delta^2 in 0.40..0.48
+        # (round-6 seed C05f caps the diffusion weight only there).  Constructed, not waited for: P*steps = 2/(r delta^2)
+        n = 96 if fast else draw(st.sampled_from([96, 128]))
+        delta = 12.0 / (n - 1)
+        r = draw(st.floats(0.40, 0.48))
+        P = draw(st.sampled_from([2.0, 3.0] if n == 96 else [2.0, 3.0, 4.0]))
+        steps = int(np.ceil(2.0 / (r * delta ** 2) / P))
     fam = draw(st.sampled_from(["collimator", "wall", "freespace", "plates", "file"]))
     it = draw(st.sampled_from([3, 4, 4]))
     # "weak, stable impedance": quadratic interpolation and free-space CSR stay below D = 0.5 (beyond that the
